@@ -293,7 +293,12 @@ def gen_op(ctx, shadow, at=None, ps_choices=None, engine_ports=None):
             state = _state_for_sub(rng, node.subschema)
         else:
             state = rng.choice([rng.randrange(40), {'x': rng.randrange(9)}, {}, rng.randrange(40)])
-        return b, {'_add': [{'key': key, 'state': state}]}, 'add', None
+        entries = [{'key': key, 'state': state}]
+        if rng.random() < 0.12:
+            # a second entry in the same list: a fresh key, the key of the first entry, or a present one
+            k2 = rng.choice([ctx.fresh('k'), key] + (kids[:1] if kids else [key]))
+            entries.append({'key': k2, 'state': state if not isinstance(state, dict) else dict(state)})
+        return b, {'_add': entries}, 'add', None
     if r < 0.50:                                   # ---- _delete
         if not kids:
             return None
@@ -619,6 +624,11 @@ def corpus():
     # adding an existing key is rejected
     out.append(_case({'P1': glob}, {'P1': gt}, {'G': {'k1': {'m': 7}}}, [
         _u({'G': {'_add': [{'key': 'k1', 'state': {'m': 1}}]}}, ops=['add'])]))
+    # ... also when an earlier entry of the same list created the key, or a later entry names a present key
+    out.append(_case({'P1': glob}, {'P1': gt}, {'G': {'k1': {'m': 7}}}, [
+        _u({'G': {'_add': [{'key': 'n', 'state': {'m': 5}}, {'key': 'n', 'state': {'m': 6}}]}}, ops=['add'])]))
+    out.append(_case({'P1': glob}, {'P1': gt}, {'G': {'k1': {'m': 7}}}, [
+        _u({'G': {'_add': [{'key': 'n', 'state': {'m': 5}}, {'key': 'k1', 'state': {'m': 6}}]}}, ops=['add'])]))
     # deleting a key that is re-added in the same update: additions first -> rejected
     out.append(_case({'P1': glob}, {'P1': gt}, {'G': {'k1': {'m': 7}}}, [
         _u({'G': {'_delete': ['k1'], '_add': [{'key': 'k1', 'state': {'m': 1}}]}}, ops=['add', 'delete'])]))
